@@ -88,6 +88,46 @@ def c04(ctx):
         rm(tr)
 
 
+# ------------------------------------------------------------------------------ C05 registries
+def c05(ctx):
+    dev, rel = ctx.build("dev"), ctx.build("release")
+    out = ctx.path("registry.nd")
+    ctx.model_check("MC_Registry", env={"OUT": out}, workers=4, timeout=600, expect_states=65536)
+    ctx.exhaustive = True
+    for b in (dev, rel):
+        ctx.replay(b, "registry", out, {"C05"}, label="registry-" + os.path.basename(b))
+    rm(out)
+
+
+# ------------------------------------------------------------------------------ C06 typed option values
+def c06(ctx):
+    dev, rel = ctx.build("dev"), ctx.build("release")
+    out = ctx.path("optval.nd")
+    ctx.model_check("MC_OptionValue", env={"DEC3": "alpha" if ctx.thorough else "none", "OUT": out}, workers=8, timeout=900)
+    for b in (dev, rel):
+        ctx.replay(b, "optval", out, {"C06"}, label="optval-" + os.path.basename(b))
+    rm(out)
+    for b in (dev, rel):
+        tr, _ = ctx.record(b, "optval", name="optval-" + os.path.basename(b))
+        ctx.validate("Trace_Wire", tr, {"C06"}, label="optval-" + os.path.basename(b))
+        rm(tr)
+
+
+# ------------------------------------------------------------------------------ C13 block option value
+def c13(ctx):
+    dev, rel = ctx.build("dev"), ctx.build("release")
+    out = ctx.path("blockvalue.nd")
+    ctx.model_check("MC_BlockValue", env={"TAILS3": "all" if ctx.thorough else "boundary", "OUT": out}, workers=8, timeout=900)
+    ctx.exhaustive = True
+    for b in (dev, rel):
+        ctx.replay(b, "blockvalue", out, {"C13"}, label="blockvalue-" + os.path.basename(b))
+    rm(out)
+
+
+TABLE_RULE = ("TLC evaluates the specification operator over the whole finite domain (one state per table key), checks the "
+              "round-trip / well-formedness theorems in every state and emits the complete expected table; every row is "
+              "compared with the real code in dev and release builds. A case is one table row; rows are distinct by key.")
+
 CODEC_RULE = ("TLC enumerates the bounded model (builder-call orders / byte strings over a boundary alphabet) and "
               "checks the wire theorems in every state; every emitted transition or string is replayed into the real "
               "Packet (dev and release builds) and compared field by field and byte for byte; recorded calls of the "
@@ -99,4 +139,7 @@ CHECKS = {
     "C02": (c02, {"rule": CODEC_RULE}),
     "C03": (c03, {"rule": CODEC_RULE}),
     "C04": (c04, {"rule": CODEC_RULE}),
+    "C05": (c05, {"rule": TABLE_RULE}),
+    "C06": (c06, {"rule": TABLE_RULE + " Typed getters/setters on a message are additionally recorded after random typed builder calls and validated by Trace_Wire element by element."}),
+    "C13": (c13, {"rule": TABLE_RULE}),
 }
